@@ -86,6 +86,7 @@ META["C02"] = {
     "is the oracle of the bounded part.",
     "technique": "contracts on the real functions: helper contracts discharged deductively (z3), the semantic contract of simplify_chained_calls checked bounded against a reference semantics (labelled stand-in)",
     "p_keys": True,
+    "p_timeout": 900,
     "explanation": "Contract-based verification of func_adl/ast/function_simplifier.py: helper "
     "contracts proved by engine P; the semantic contract of visit() is a bounded contract check.",
     "assumptions": ["bounded: queries of <= 3 chained operators, lambda bodies to depth 1 with nested "
@@ -125,9 +126,13 @@ META["C18"] = {
     "totality / unparse+compile contract on ~1300 queries incl. every literal x selector "
     "combination, 5 s per input as the bounded termination observation.",
     "level_note": "NOT proved: termination (non-structural recursion; partial correctness only). "
-    "ASSUMED, listed in the evidence: visit_Lambda (in-place renaming through aliased lists — "
-    "outside the term view), make_args_unique, arg_name, that self.visit leaves the argument stack "
-    "as it found it, and that generic_visit of a node of query shape keeps the shape. "
+    "ASSUMED, listed in the evidence: visit_Lambda (the path enumeration of its body does not finish "
+    "within a check's budget), that self.visit leaves the argument stack as it found it, that "
+    "generic_visit of a node of query shape keeps the shape, and that the tree make_args_unique "
+    "returns shares no node with its argument. make_args_unique, its inner visitor replace_args "
+    "(visit_Name, visit_Lambda: the renaming stack is restored, a Lambda keeps its number of "
+    "parameters, results stay well-formed and of query shape), arg_name, _avoid_arg_names_in, "
+    "lambda_parameter_names and lambda_call_follow_renames are now PROVED, no longer assumed. "
     "argument_stack (call_stack.py: __init__, push/pop, define_name, lookup_name; list of "
     "dictionaries in term view, class invariant, ten list lemmas) and stack_frame (the real "
     "__enter__/__exit__ run at every `with`) are now PROVED, no longer assumed. The NodeTransformer "
